@@ -1002,6 +1002,14 @@ def c19(res, tier, seed, lib):
                     res.check(rc == 1 and cls == want, "picker-failure-is-a-pastel-error", "cli:colorpicker", "%s %r" % (name, cmd), "rc=%s class=%s msg=%r" % (rc, cls, msg))
     finally:
         shutil.rmtree(d, ignore_errors=True)
+    # an argument that is not valid UTF-8, in every position relative to known and unknown flags
+    bad = b"\xff\xfe"
+    for sub in ["color", "format", "distinct", "paint", "list", "random", "sort-by", "mix", "gradient", "set", "lighten", "colorblind", "pick", "gray"]:
+        for argv in [[sub, bad], [sub, "--nope", bad], [sub, "--force-color", bad], [sub, "-x", bad], [sub, bad, "--nope"], ["--nope", sub, bad],
+                     ["-m", bad, sub], [sub, "red", bad], [bad]]:
+            rc, out, err = run_cli(argv, timeout=20)
+            res.case(repr(argv))
+            generic_oracle(res, argv, rc, out, err, allow_partial_line=True)
     # `distinct` with the same fixed colour more than once (all colours fixed: quick and deterministic)
     for argv in [["distinct", "2", "red", "red"], ["distinct", "2", "red", "ff0000"], ["distinct", "3", "red", "blue", "red"],
                  ["distinct", "3", "#123", "#123", "#123"], ["distinct", "-m", "CIE76", "2", "gray", "grey"], ["distinct", "3", "red", "red"]]:
